@@ -451,7 +451,12 @@ func genC10(r *R, sc *Scenario) {
 	sc.QuietMs = 1000
 	sc.Arm = "probes"
 	if r.P(350) {
-		sc.Clients = append(sc.Clients, Client{Name: "c", Ops: []Op{{AtMs: whenMs(r, 20000), Op: Pick(r, "stop", "restart"), Arg: spec.Procs[0].Name}}})
+		at := whenMs(r, 20000)
+		if r.P(400) {
+			// at the very instant at which a probe run may complete
+			at = 1000*r.Range(1, 20) + Pick(r, 5, 50, 400)
+		}
+		sc.Clients = append(sc.Clients, Client{Name: "c", Ops: []Op{{AtMs: at, Op: Pick(r, "stop", "restart"), Arg: spec.Procs[0].Name}}})
 	}
 	// a daemon with a liveness probe
 	if r.P(400) {
